@@ -470,8 +470,12 @@ func (e *Engine) stepCatch(st *State) (sig interface{}) {
 			case forkSignal, goPanic, abortSignal, killSignal, retrySignal:
 				sig = r
 			default:
-				fmt.Fprintf(os.Stderr, "ENGINE PANIC at %s\n  stack: %s\n", posOf(st, e), e.stackTrace(st))
-				panic(r)
+				// an engine-level type confusion (e.g. a modelled value reaching unmodelled library
+				// code) ends the path as inconclusive instead of crashing the run
+				if e.cfg.Verbose >= 2 {
+					fmt.Fprintf(os.Stderr, "ENGINE PANIC at %s: %v\n  stack: %s\n", posOf(st, e), r, e.stackTrace(st))
+				}
+				sig = abortSignal{fmt.Sprintf("engine cannot execute this code: %v", r)}
 			}
 		}
 	}()
